@@ -31,6 +31,8 @@ var shapeFiles = []string{
 	"ingesters/auditlog/auditlogingester.go",
 	"ingesters/syslog/syslogingester.go",
 	"internal/common/login.go",
+	"internal/common/machineid.go",
+	"internal/common/nodename.go",
 	"internal/common/constants.go",
 	"internal/common/errors.go",
 	"internal/metrics/constants.go",
